@@ -163,15 +163,6 @@ where
                     session
                         .retrasmit_queue
                         .push_back((msg.action_id, msg.packet.freeze()));
-                } else if packet_id == PubrelTx::PACKET_ID {
-                    tx.write(msg.packet.as_ref()).await?;
-                    session
-                        .awaiting_ack
-                        .push_back((msg.action_id, msg.response_channel));
-
-                    session
-                        .retrasmit_queue
-                        .push_back((msg.action_id, msg.packet.freeze()));
                 } else {
                     tx.write(msg.packet.as_ref()).await?;
                     session
@@ -328,21 +319,44 @@ where
                 }
             }
             RxPacket::Pubrec(pubrec) => {
-                // A PUBREC with reason >= 0x80 completes the QoS 2 exchange: release the send quota slot.
-                if pubrec.reason as u8 >= 0x80
-                    && connection.send_quota != connection.remote_receive_maximum
-                {
-                    connection.send_quota += 1;
-                }
-
+                let packet_id = pubrec.packet_identifier;
+                let refused = pubrec.reason as u8 >= 0x80;
                 let rx_packet = RxPacket::Pubrec(pubrec);
                 let action_id = utils::rx_action_id(&rx_packet);
 
-                if let Some((_, sender)) =
-                    utils::linear_search_by_key(&session.awaiting_ack, action_id)
-                        .and_then(|pos| session.awaiting_ack.remove(pos))
-                {
-                    let _ = sender.send(Ok(rx_packet));
+                // The PUBLISH has been acknowledged, it must not be retransmitted anymore.
+                utils::linear_search_by_key(&session.retrasmit_queue, action_id)
+                    .and_then(|pos| session.retrasmit_queue.remove(pos));
+
+                let awaiting = utils::linear_search_by_key(&session.awaiting_ack, action_id)
+                    .and_then(|pos| session.awaiting_ack.remove(pos));
+
+                if refused {
+                    // A PUBREC with reason >= 0x80 completes the QoS 2 exchange: release the send quota slot.
+                    if connection.send_quota != connection.remote_receive_maximum {
+                        connection.send_quota += 1;
+                    }
+
+                    if let Some((_, sender)) = awaiting {
+                        let _ = sender.send(Ok(rx_packet));
+                    }
+                } else if let Some((_, sender)) = awaiting {
+                    // Continue the exchange here rather than in the publishing future, which may have
+                    // been cancelled meanwhile: send PUBREL and let the caller await the PUBCOMP.
+                    let mut builder = PubrelTxBuilder::default();
+                    builder.packet_identifier(packet_id);
+                    let pubrel = builder.build().unwrap();
+
+                    let mut buf = BytesMut::with_capacity(pubrel.packet_len());
+                    pubrel.encode(&mut buf);
+                    let pubrel_action_id = utils::tx_action_id(&TxPacket::Pubrel(pubrel));
+
+                    tx.write(buf.as_ref()).await?;
+
+                    session.awaiting_ack.push_back((pubrel_action_id, sender));
+                    session
+                        .retrasmit_queue
+                        .push_back((pubrel_action_id, buf.freeze()));
                 }
             }
             RxPacket::Pubrel(pubrel) => {
